@@ -122,6 +122,42 @@ def check_dir(ctx, od, name, user_headers):
             if in_bindc and re.match(r"^(logical|integer|real|complex|double\s+precision)\s*(,|::)", low):
                 fails.append({"input": name, "module": os.path.basename(f), "line": ln, "text": t.strip()[:160],
                               "what": "a bind(C) interface declares a variable of default kind (not C interoperable: no C_BOOL / C_INT / C_FLOAT ... kind)"})
+        # a dummy of a bind(C) interface that is assumed-rank, assumed-shape or of assumed length is passed by C descriptor: the bound C
+        # function's parameter at that position must be a CFI_cdesc_t pointer (gfortran -fc-prototypes prints both as plain pointers)
+        cur = None
+        for ln, t in stmts:
+            low = t.strip()
+            mh = re.match(r"^(?:pure\s+|elemental\s+)*(?:function|subroutine)\s+\w+\s*\(([^)]*)\).*bind\(C,\s*name=\"(\w+)\"", low, flags=re.I)
+            if mh:
+                cur = {"args": [a.strip().lower() for a in mh.group(1).split(",") if a.strip()], "cname": mh.group(2), "desc": {}}
+                continue
+            if cur is not None and re.match(r"^end\s+(function|subroutine)", low, flags=re.I):
+                proto = None
+                for tx in texts:
+                    mp = re.search(r"\b%s\s*\(([^;{]*?)\)\s*[;{]" % re.escape(cur["cname"]), tx, flags=re.S)
+                    if mp:
+                        proto = [x.strip() for x in mp.group(1).replace("\n", " ").split(",")]
+                        break
+                if proto is not None and len(proto) == len(cur["args"]):
+                    for k, a in enumerate(cur["args"]):
+                        if a in cur["desc"]:
+                            ctx.count(1, ("descriptor-dummy", name, cur["cname"], a))
+                            ctx.hist("descriptor-dummy")
+                            if "CFI_cdesc_t" not in proto[k]:
+                                fails.append({"input": name, "module": os.path.basename(f), "function": cur["cname"], "argument": a,
+                                              "what": "a dummy passed by C descriptor (%s) is bound to a C parameter that is not a CFI_cdesc_t pointer" % cur["desc"][a],
+                                              "fortran": cur["desc"][a], "c": proto[k]})
+                cur = None
+                continue
+            if cur is not None:
+                md = re.match(r"^(?:integer|real|logical|complex|character|type)\b(.*?)::\s*(.+)$", low, flags=re.I)
+                if md:
+                    for ent in re.split(r",(?![^()]*\))", md.group(2)):
+                        nm = re.match(r"^\s*(\w+)", ent)
+                        if not nm:
+                            continue
+                        if "(..)" in ent or re.search(r"\(\s*:", ent) or re.search(r"len\s*=\s*[*:]", md.group(1)):
+                            cur["desc"][nm.group(1).lower()] = low[:120]
         p = subprocess.run(base + ["-fc-prototypes", f], capture_output=True, text=True, cwd=od)
         if p.returncode != 0:
             notes.append("%s/%s: gfortran could not process the module (%s)" % (name, os.path.basename(f), p.stderr.strip().split("\n")[-1][:120]))
@@ -187,6 +223,8 @@ def run(ctx):
             glob.glob(os.path.join(vlib.REPO, "regression", "run", os.path.basename(y)[:-5], "*.h*"))
         if name == "gen-c-generic":
             uh = [os.path.join(os.path.dirname(y), "gentot.h")]
+        if name == "gen-c-cfi":
+            uh = [os.path.join(os.path.dirname(y), "gencfi.h")]
         return name, check_dir(ctx, od, name, uh), out
     jobs = list(todo)
     # generated library in both languages and with F_CFI
@@ -222,6 +260,15 @@ def run(ctx):
     yp = os.path.join(gd, "gen-c-generic.yaml")
     yaml.safe_dump(totlib, open(yp, "w"), sort_keys=False)
     jobs.append(("gen-c-generic", yp, []))
+    # the same C library idea with F_CFI: assumed-rank arguments of every intent
+    open(os.path.join(gd, "gencfi.h"), "w").write("int SumValues(const int *values, int nvalues);\nvoid ScaleValues(int *values, int nvalues);\nvoid FillValues(int *values, int nvalues);\n")
+    cfilib = {"library": "gencfi", "language": "c", "c_header": "gencfi.h", "options": {"wrap_python": False, "wrap_lua": False, "F_CFI": True},
+              "declarations": [{"decl": "int SumValues(const int *values +dimension(..), int nvalues)"},
+                               {"decl": "void ScaleValues(int *values +dimension(..)+intent(inout), int nvalues)"},
+                               {"decl": "void FillValues(int *values +dimension(..)+intent(out), int nvalues)"}]}
+    yp = os.path.join(gd, "gen-c-cfi.yaml")
+    yaml.safe_dump(cfilib, open(yp, "w"), sort_keys=False)
+    jobs.append(("gen-c-cfi", yp, []))
     allnotes = []
     with ThreadPoolExecutor(vlib.NCPU) as ex:
         for name, res, out in ex.map(one, jobs):
